@@ -299,7 +299,7 @@ func TestC11_Handshake(t *testing.T) {
 	}
 	defer e.close()
 	variants := []string{"no-line", "wrong-line", "near-miss-line", "http-line", "partial-line", "first-frame-open", "first-frame-garbage-msg", "empty-versions", "unknown-versions",
-		"mixed-versions", "unknown-compression", "lz4-then-plain", "truncated-request", "zero-length-frame", "garbage", "response-as-request", "valid"}
+		"mixed-versions", "unknown-compression", "lz4-then-plain", "truncated-request", "zero-length-frame", "nonrequest-then-valid-request", "garbage", "response-as-request", "valid"}
 	ev.CheckScaled(t, c11, 1, 1, func(rt *rapid.T) {
 		v := variants[rapid.IntRange(0, len(variants)-1).Draw(rt, "variant")]
 		mk := marker()
@@ -357,6 +357,23 @@ func TestC11_Handshake(t *testing.T) {
 			mustClose = false // incomplete frame followed by silence: server may keep waiting
 		case "zero-length-frame":
 			send = append([]byte(netfx.ProtocolLine), 0, 0, 0, 0)
+		case "nonrequest-then-valid-request":
+			// "one that sends anything else first is closed": the first frame is not a connect request (empty,
+			// an open frame, a connect response, a one-byte garbage message) and a perfectly valid request follows
+			// at once; the server must not skip ahead to it
+			var firstFrame []byte
+			switch rapid.IntRange(0, 3).Draw(rt, "nonrequest") {
+			case 0:
+				firstFrame = []byte{0, 0, 0, 0}
+			case 1:
+				firstFrame = openFrame
+			case 2:
+				firstFrame = frameBytes(netfx.Encode(netfx.ConnectResponseMsg(true, "", 10, 0)))
+			default:
+				firstFrame = frameBytes([]byte{0x01})
+			}
+			send = append([]byte(netfx.ProtocolLine), firstFrame...)
+			send = append(send, req([]int32{10}, nil)...)
 		case "garbage":
 			send = rapid.SliceOfN(rapid.Byte(), 1, 64).Draw(rt, "garbage")
 			mustClose = false // may not contain a newline: server legitimately keeps waiting for the line
